@@ -121,6 +121,8 @@ class Gen:
             op = r.choice(["plus", "minus", "mal"])
             if ty == K:
                 ta, tb = r.choice([(K, K), (K, Z), (Z, K), (K, B), (B, K), (K, K)])
+            elif ty == Z:
+                ta, tb = r.choice([(Z, Z), (Z, Z), (Z, B), (B, Z)])
             else:
                 ta = tb = ty
             return Bin(op, self_expr(ta), self_expr(tb), ty)
@@ -135,9 +137,10 @@ class Gen:
         if c == "mod":
             return Bin("modulo", self_expr(ty), self_expr(ty), ty)
         if c == "bit":
-            return Bin(r.choice(["lund", "loder", "lkontra"]), self_expr(ty), self_expr(ty), ty)
+            ta, tb = (ty, ty) if ty == B else r.choice([(Z, Z), (Z, B), (B, Z)])
+            return Bin(r.choice(["lund", "loder", "lkontra"]), self_expr(ta), self_expr(tb), ty)
         if c == "shift":
-            amount = Lit(ty, r.randint(0, 63 if ty == Z else 7))
+            amount = Lit(r.choice([Z, B]), r.randint(0, 63 if ty == Z else 7))
             return Bin(r.choice(["links", "rechts"]), self_expr(ty), amount, ty)
         if c == "lnicht":
             return Un("lnicht", self_expr(ty), ty)
